@@ -203,7 +203,14 @@ pub fn worker_main(check: &mut dyn Check, ctx: &WorkerCtx, start: u64, stride: u
             let _ = writeln!(o, "START {}", i);
             let _ = o.flush();
         }
-        let rep = check.run(ctx, i);
+        let mut rep = check.run(ctx, i);
+        for (family, k, seed) in crate::docs::BROKEN.lock().unwrap().drain(..) {
+            rep.violations.push(Violation {
+                signature: format!("a well-formed generated document does not load ({})", family),
+                detail: format!("document {} of family {} (written by the harness, accepted by its strict reader)", k, family),
+                case: json!({"kind": "generated-document", "property": check.info().id, "family": family, "k": k, "verif_seed": seed}),
+            });
+        }
         let mut o = stdout.lock();
         for v in &rep.violations {
             let n = viol_seen.entry(v.signature.clone()).or_insert(0);
@@ -806,6 +813,18 @@ pub fn replay_main(check: &mut dyn Check, ctx: &WorkerCtx, path: &str) -> i32 {
     };
     let want = j.get("signature").and_then(|x| x.as_str()).unwrap_or("").to_string();
     let case = j.get("case").cloned().unwrap_or(J::Null);
+    if case.get("kind").and_then(|x| x.as_str()) == Some("generated-document") {
+        let family = case.get("family").and_then(|x| x.as_str()).unwrap_or("rich");
+        let k = case.get("k").and_then(|x| x.as_u64()).unwrap_or(0);
+        let seed = case.get("verif_seed").and_then(|x| x.as_u64()).unwrap_or(1);
+        return if !crate::docs::generated_loads(&ctx.repo, seed, family, k) {
+            println!("REPRODUCED {}", want);
+            1
+        } else {
+            println!("NOT-REPRODUCED want '{}'", want);
+            0
+        };
+    }
     if case.get("kind").and_then(|x| x.as_str()) == Some("run-index") {
         // fatal cases are replayed by run index in a child process so that the death is an observation
         let exe = std::env::current_exe().unwrap();
